@@ -814,6 +814,8 @@ func vFmtDay(day int, layout string) string {
 		return fmt.Sprintf("%04d/%02d/%02d", y, m, d)
 	case "2006-01-02":
 		return fmt.Sprintf("%04d-%02d-%02d", y, m, d)
+	case "2006/02/01": // year/day/month: a text that is also well-formed in the default layout, with another meaning
+		return fmt.Sprintf("%04d/%02d/%02d", y, d, m)
 	case "02.01.2006":
 		return fmt.Sprintf("%02d.%02d.%04d", d, m, y)
 	case "02/01/2006":
@@ -824,6 +826,8 @@ func vFmtDay(day int, layout string) string {
 		return fmt.Sprintf("%04d%02d%02d", y, m, d)
 	case "2006-01-02 15:04 -0700": // midnight UTC; records with a time of day and an offset are rendered by their generator
 		return fmt.Sprintf("%04d-%02d-%02d 00:00 +0000", y, m, d)
+	case "2006-01-02 15:04:05.000": // midnight
+		return fmt.Sprintf("%04d-%02d-%02d 00:00:00.000", y, m, d)
 	case "2006-01-02 15:04": // midnight; records with a time of day are rendered by their generator
 		return fmt.Sprintf("%04d-%02d-%02d 00:00", y, m, d)
 	}
